@@ -149,14 +149,19 @@ def build_ec(desc):
 SIG_CURVES = [eg.C.CURVE_BRAINPOOLP256R1, eg.C.CURVE_SECP256R1, eg.C.CURVE_SECP384R1, eg.C.CURVE_SECP224R1]
 
 
+_LAST_ISSUERS = []
+
+
 def build_sig(desc):
   mat = Material(desc['m'], 'c17s')
   sigs = []
+  del _LAST_ISSUERS[:]
   for cur, kind, t, k in desc['arts']:
     cid = SIG_CURVES[cur % len(SIG_CURVES)]
     n = eg.ref(cid).n
     bits = n.bit_length()
     iss = eg.Issuer(cid, 1 + mat.below(n - 1))
+    _LAST_ISSUERS.append(iss)
     t = 24 + t % 25                      # 24..48 biased bits
     m = -(-4 * bits // t)                # ratio >= 4: well inside the asserted region of C08
     if kind == 'msb':
@@ -268,6 +273,15 @@ def _history(desc, mat):
               [2**4, 2**10, 2**14][b % 3])
     elif kind == 'reset':
       curve._table, curve._table_size = {}, 0
+    elif kind == 'sigtwin' and _LAST_ISSUERS:
+      # the same private key used on another curve, checked earlier in this process
+      src = _LAST_ISSUERS[b % len(_LAST_ISSUERS)]
+      oc = [c for c in SIG_CURVES if c != src.curve_type][a % 3]
+      on = eg.ref(oc).n
+      twin = eg.Issuer(oc, src.d % on or 1)
+      ts = [twin.sig(k, mat.bytes(32)) for k in eg.nonces_msb(mat, on, 48, -(-4 * on.bit_length() // 48))]
+      for c in (sc.CheckNonceMSB, sc.CheckNonceCommonPrefix):
+        libcall(c().Check, [x for x in ts if x is not None])
     elif kind == 'small_table':
       # leaves a very small cached table on every curve
       for c2 in ec_util.CURVE_FACTORY.values():
@@ -328,6 +342,10 @@ def run_contexts(desc):
   if not arts:
     return {'nt': False, 'cls': ['empty']}
   ctx = dict(type=t, check=name)
+  hfirst = bool(desc.get('hfirst') and desc['history'])
+  if hfirst:
+    # earlier work happens before anything else; the verdicts are then compared with a fresh process
+    _history(desc, mat)
   base = _run(ctor, name, arts)
   any_weak = any(v[0] and v[0][0] for v in base)
   compared = ['batch']
@@ -359,7 +377,7 @@ def run_contexts(desc):
         raise Violation('healthy-extras-changed-verdict', index=i, with_extras=ev[pos], batch=base[i], **ctx)
     compared.append('extras')
   # (4) after a history of other calls in this process
-  if desc['history']:
+  if desc['history'] and not hfirst:
     _history(desc, mat)
     hv = _run(ctor, name, arts)
     for i, (h, b) in enumerate(zip(hv, base)):
@@ -367,20 +385,20 @@ def run_contexts(desc):
         raise Violation('after-history', index=i, after=h, before=b, history=desc['history'], **ctx)
     compared.append('history')
   # (5) fresh process
-  if desc['fresh']:
+  if desc['fresh'] or hfirst:
     fv = _fresh_process(desc, t, name)
     now = _run(ctor, name, arts)
     for i, (f, b) in enumerate(zip(fv, now)):
       f = [f[0], f[1], f[2]]
       if not _same(f, b, joint, name):
         raise Violation('fresh-process-vs-this-process', index=i, fresh=f, here=b, **ctx)
-    compared.append('fresh-process')
+    compared.append('fresh-process' + ('-after-history' if hfirst else ''))
   cls = ['%s %s' % (t, name)] + ['context ' + c for c in compared] + (['some-artifact-weak'] if any_weak else [])
   return {'nt': any_weak and len(arts) > 1, 'cls': cls, 'n': len(arts)}
 
 
 def strat_contexts(tier):
-  hist = st.lists(st.tuples(st.sampled_from(['batchdl', 'diffs', 'reset', 'multg', 'rsa', 'ecall', 'small_table', 'small_table']),
+  hist = st.lists(st.tuples(st.sampled_from(['batchdl', 'diffs', 'reset', 'multg', 'rsa', 'ecall', 'small_table', 'small_table', 'sigtwin', 'sigtwin']),
                             st.integers(0, 3), st.integers(0, 1000)).map(list), max_size=4)
 
   @st.composite
@@ -407,10 +425,10 @@ def strat_contexts(tier):
     return {'m': draw(material), 'type': t, 'arts': arts, 'check': check,
             'extras': draw(st.sampled_from([0, 1, 3])), 'history': draw(hist),
             'fresh': draw(st.sampled_from([False, False, False, True])),
-            'singleton': draw(st.booleans()), 'aim': draw(st.sampled_from([True, True, False]))}
+            'singleton': draw(st.booleans()), 'hfirst': draw(st.sampled_from([False, False, True])), 'aim': draw(st.sampled_from([True, True, False]))}
   return s()
 
 
 ARMS = [
-    Arm('contexts', run_contexts, strategy=strat_contexts, quick=320, thorough=4000, budget=(170, 2400)),
+    Arm('contexts', run_contexts, strategy=strat_contexts, quick=256, thorough=4000, budget=(170, 2400)),
 ]
